@@ -248,7 +248,12 @@ def work_client(chunk, st):
     """client audits: the single-report consistency rules apply unchanged"""
     for (prod, version, banner), kind in chunk:
         l = peer_lists(kind)
-        cli = P.Client(kex=l['kex'], key=l['key'], enc=l['enc'], mac=l['mac'], banner=banner)
+        if kind == 'asym-c2s-weak':       # the client's own sending direction carries the weak names, the other one does not
+            cli = P.Client(kex=l['kex'], key=l['key'], enc=l['enc'], mac=l['mac'], enc_s2c=ASYM_OTHER['enc'], mac_s2c=ASYM_OTHER['mac'], banner=banner)
+        elif kind == 'asym-s2c-weak':
+            cli = P.Client(kex=l['kex'], key=l['key'], enc=ASYM_OTHER['enc'], mac=ASYM_OTHER['mac'], enc_s2c=l['enc'], mac_s2c=l['mac'], banner=banner)
+        else:
+            cli = P.Client(kex=l['kex'], key=l['key'], enc=l['enc'], mac=l['mac'], banner=banner)
         res = H.client_audit(cli, opts=['-n', '-j'])
         st.execution(res.world, outcome=('client', kind, res.status), root=('client', banner, kind), nontrivial=('client', banner, kind))
         if res.status not in (0, 2, 3):
@@ -371,7 +376,7 @@ def run(tier, seed):
     from props import faultinv as _FI
     par.pmap(_FI.work, _FI.tasks(), extra=(('recs',),), stats=st, chunk=6)
     par.pmap(work_repeats, [(n, k, w) for n in sorted(REPEAT_SETS) for k in (2, 3, 8, 9, 10, 11, 30) for w in ('front', 'back', 'around')], stats=st, chunk=4)
-    par.pmap(work_client, [(b, k) for b in bs[::4] for k in ('all', 'even', 'odd', 'clean', 'terrapin-hardened', 'unknowns')], stats=st, chunk=4)
+    par.pmap(work_client, [(b, k) for b in bs[::4] for k in ('all', 'even', 'odd', 'clean', 'terrapin-hardened', 'unknowns', 'asym-c2s-weak', 'asym-s2c-weak')], stats=st, chunk=4)
     vcases = []
     for (prod, version, banner), kind in H.pick(tasks, seed, 12 if tier == 'quick' else 60):
         vcases.append({'label': '%s %s' % (banner, kind), 'opts': ['-n'] + (['-j'] if len(vcases) % 2 else []), 'make': (lambda kind=kind, banner=banner: make_server(kind, banner)[0])})
